@@ -2,6 +2,7 @@ package main
 
 import (
 	"fmt"
+	"os"
 	"go/token"
 	"go/types"
 	"sort"
@@ -121,12 +122,24 @@ func (c *fsClient) validateFromUpToDate(x *Exec, st *State, pos token.Pos) {
 			}
 		}
 	}
-	if lenOK && (allOK || (ln.Op == "list" && ln.Aux == "exact" && len(ln.Args) == 0)) {
+	emptyStack := false
+	if k, ok := st.constOf(mk("len", "", nil, cur)); ok && k.Aux == "0" {
+		emptyStack = true
+	}
+	if lenOK && (allOK || emptyStack || (ln.Op == "list" && ln.Aux == "exact" && len(ln.Args) == 0)) {
 		c.okay("UPTODATE-MEANS-EQUAL", key, "true is returned only when lengths are equal and every table name equals its list entry")
 		if c.holdsListLock(st) {
 			g.setFlag("validated", cur)
 		}
 		return
+	}
+	if os.Getenv("RSA_DEBUG") == "4" {
+		fmt.Fprintf(os.Stderr, "UPTODATE fail: cur=%s\n ln=%s\n", cur, ln)
+		for k, v := range st.facts {
+			if st.fterm[k].Op == "eq" {
+				fmt.Fprintf(os.Stderr, "   %s = %v\n", st.fterm[k], v)
+			}
+		}
 	}
 	c.violate(st, "UPTODATE-MEANS-EQUAL", key, pos, fmt.Sprintf("the up-to-date check can return true without having compared every table name with the list (lengths compared: %v, all elements compared: %v)", lenOK, allOK))
 }
@@ -270,7 +283,7 @@ func (c *fsClient) exitChecks(x *Exec, st *State, entry string, fn *ssa.Function
 	}
 	// POST-COMMIT-OK / STALE-RELOAD for Stack.Add
 	if entry == "(*Stack).Add" && errv != nil {
-		if g.isSet("addCommitted") {
+		if g.isSet("addCommitted") || g.isSet("commitRenamed") {
 			if st.truth(tEq(errv, tNil)) == 1 {
 				c.okay("POST-COMMIT-OK", entry+" / committed", "a committed Add returns nil")
 			} else {
